@@ -396,14 +396,21 @@ class Ops:
         return a is b
 
     def _obj_eq(self, a, b):
-        if a is b:
+        if a is b and not isinstance(a, Obj):
             return True
+        it = getattr(self, 'interp', None)
         for x, y in ((a, b), (b, a)):
             if isinstance(x, Obj):
                 f, _ = x.cls.lookup('__eq__')
                 if f is not None:
-                    raise Unsupported('user __eq__')
-        return False
+                    if it is None:
+                        raise Unsupported('user __eq__')
+                    from .values import BoundMethod
+                    r = it.call(BoundMethod(x, f), [y], {})
+                    if isinstance(r, Opaque) and r.name == 'NotImplemented':
+                        continue
+                    return self.truth_value(r)
+        return a is b
 
     def sum_equals(self, a, b):
         """element-wise sufficient condition for equality of two sums over
